@@ -16,7 +16,7 @@ import (
 var proxyErrors = []string{
 	"-ERR unknown error\r\n", "-ERR addr not found\r\n", RUnknownCmd, RUnknownSlot, "-ERR unknown proxy pool\r\n",
 	"-ERR unknown proxy pool conn\r\n", "-ERR unknown mget error\r\n", RReqTooLarge, RRspTooLarge, RWrongArgs, RTimeout,
-	RAuthBad, RAuthNoPw,
+	RAuthBad, RAuthNoPw, "-ERR too many cluster redirections\r\n",
 }
 
 func isProxyError(b []byte) bool {
@@ -288,7 +288,7 @@ func (d *Driver) ClassifyReplies() []ReplyFinding {
 		}
 		if c.Malformed {
 			out = append(out, ReplyFinding{Client: c.Idx, Pos: len(c.Replies), Kind: "malformed", Got: clip(c.recv, 120), Why: "bytes that are not a RESP2 reply"})
-		} else if len(c.recv) > 0 && d.clientFinishedOrSettled(c) {
+		} else if len(c.recv) > 0 && !c.Sock.Closed() && !c.SelfClosed {
 			out = append(out, ReplyFinding{Client: c.Idx, Pos: len(c.Replies), Kind: "extra", Got: clip(c.recv, 120), Why: "trailing partial reply bytes"})
 		}
 	}
@@ -299,6 +299,10 @@ func (d *Driver) clientFinishedOrSettled(c *ClientState) bool { return true }
 
 func (d *Driver) misclassify(c *ClientState, i int, got []byte, exps []Expected) string {
 	own := c.Plan.Reqs[i].Tok
+	if isProxyError(got) && (!exps[i].Known || d.P.Faulty || c.Plan.Reqs[i].Class == "single" || c.Plan.Reqs[i].Class == "split") {
+		// one of the proxy's own constants where a forwarded reply was due: say so (whether that is acceptable is the profile's call)
+		return "proxy-error"
+	}
 	// reordered: the bytes are exactly what another position of this client was to receive
 	order := make([]int, 0, len(exps))
 	for j := i + 1; j < len(exps); j++ {
